@@ -11,6 +11,9 @@ import FeatModel.Lemmas.C15Conform
 import FeatModel.Lemmas.C15Chain
 import FeatModel.Lemmas.C15Hess
 import FeatModel.Lemmas.C15Hermite
+import FeatModel.Lemmas.C15Volume
+import FeatModel.Lemmas.C15Unmap
+import FeatModel.Lemmas.C15ConformMesh
 import FeatModel.Lemmas.C15AnyCell
 /-!
 # C15 — finite-element bases are unisolvent, derivative-consistent and conforming: property theorems
@@ -298,15 +301,10 @@ theorem C15.tensor_table_correct (t1 : BasisTab) (n : Nat) (hG hH : Bool) (idx :
     (tensorTab t1 n hG hH idx samples).samplesOk = true :=
   FeatModel.Poly.tensor_table_correct t1 n hG hH idx samples h1 hf
 
-/-- Lagrange-3 on the hexahedron (64 basis functions; values, gradients and Hessians on the 4×4×4 grid): the table
-    used by the driver reproduces every sample of the real evaluator — through `tensor_table_correct`.  (`_partial`:
-    no kernel-checked `gradOk`/`hessOk` for this table; its gradient/Hessian polynomials are products containing the
-    derivative polynomials of the checked 1-D table, and they match the evaluator's gradient/Hessian samples.) -/
-theorem C15.tables_match_samples_tensor_partial (key : Key) (h : key ∈ sampleKeys) :
-    ∃ t, tabOf key.1 key.2.1 key.2.2 = some t ∧ t.shapeOk = true ∧ t.samplesOk = true := by
-  simp only [sampleKeys, List.mem_cons, List.not_mem_nil, or_false] at h
-  subst h
-  exact ⟨FeatModel.Gen.BasisH3.l3, rfl, shape_l3, samples_l3⟩
+/-- Lagrange-3 on the hexahedron (64 basis functions; values, gradients and Hessians on the 4×4×4 grid) is a checked
+    table like all others: samples through `tensor_table_correct`, gradient / Hessian identities by kernel evaluation
+    (this replaces the former `tables_match_samples_tensor_partial`). -/
+theorem C15.lagrange3_hexahedron_checked : ((Fam.L3, Kind.H, 3) : Key) ∈ checkedKeys := by decide
 
 /-! ## Hermite-3 / Bogner-Fox-Schmit in 1-D on arbitrarily oriented intervals -/
 
@@ -355,6 +353,114 @@ theorem C15.hermite_C1_across_vertex (a1 b1 a2 b2 : Rat) (h1 : a1 ≠ b1) (h2 : 
     evalAt [intervalVertex a1 b1 l1] (FeatModel.Poly.pderiv 0 (hermiteFn a1 b1 u))
       = evalAt [intervalVertex a1 b1 l1] (FeatModel.Poly.pderiv 0 (hermiteFn a2 b2 w)) :=
   hermite_C1 a1 b1 a2 b2 h1 h2 u w l1 l2 hl1 hl2 hX hv hdv
+
+/-! ## the Jacobian determinant integrates to the cell volume; the inverse mapping -/
+
+/-- **`∫_ref det J = signed volume`**, quadrature-free, as polynomial identities in the vertex coordinates (all `V`):
+    triangle and tetrahedron (`det(v_i - v_0)/d!`), interval (`b - a`), and the general **bilinear quadrilateral**
+    (shoelace formula of the polygon `v0 v1 v3 v2`).  `detJPoly` is the determinant of the model Jacobian at every
+    point (`C15.detJPoly_is_model_det`).  The trilinear hexahedron is covered by the `volq`/`vol` correspondence only. -/
+theorem C15.jac_det_integrates_to_signed_volume (V : List (List Rat)) :
+    integrateRef Kind.S 2 (detJPoly Kind.S 2 V) = signedVolume Kind.S 2 V ∧
+    integrateRef Kind.S 3 (detJPoly Kind.S 3 V) = signedVolume Kind.S 3 V ∧
+    integrateRef Kind.H 1 (detJPoly Kind.H 1 V) = signedVolume Kind.H 1 V ∧
+    integrateRef Kind.H 2 (detJPoly Kind.H 2 V) = signedVolume Kind.H 2 V :=
+  ⟨integral_detJ_S2 V, integral_detJ_S3 V, integral_detJ_H1 V, integral_detJ_H2 V⟩
+
+/-- `detJPoly` evaluated at a reference point is the determinant of the Jacobian returned by the model of the trafo
+    evaluator (`ev`, `trcfg`, `vol`, `volq` ops) – every shape, dimension 1–3, all vertex coordinates. -/
+theorem C15.detJPoly_is_model_det (k : Kind) (d : Nat) (hd : d = 1 ∨ d = 2 ∨ d = 3) (V : List (List Rat))
+    (hV : worldDim V = d) (x : List Rat) : evalAt x (detJPoly k d V) = det d (jacMat k d V x) :=
+  detJPoly_eval k d hd V hV x
+
+/-- `Evaluator::volume()` (model `cellVolume`, op `vol`) is the absolute value of the signed volume. -/
+theorem C15.volume_is_abs_signed_volume (V : List (List Rat)) :
+    (worldDim V = 2 → cellVolume Kind.S 2 V = rabs (signedVolume Kind.S 2 V)) ∧
+    (worldDim V = 3 → cellVolume Kind.S 3 V = rabs (signedVolume Kind.S 3 V)) ∧
+    (worldDim V = 2 → cellVolume Kind.H 2 V = rabs (signedVolume Kind.H 2 V)) :=
+  ⟨cellVolume_S2 V, cellVolume_S3 V, cellVolume_H2 V⟩
+
+/-- The quadrature of the `volq` op (real FEAT rule: barycentre on simplices, tensor Simpson on hypercubes) is exact
+    for `det J`, and with `jac_det = |det J|` it returns the signed volume whenever `det J ≥ 0` at the rule's points. -/
+theorem C15.volq_quadrature_exact (V : List (List Rat)) :
+    volQuadSigned Kind.S 2 V = signedVolume Kind.S 2 V ∧ volQuadSigned Kind.S 3 V = signedVolume Kind.S 3 V ∧
+    volQuadSigned Kind.H 1 V = signedVolume Kind.H 1 V ∧ volQuadSigned Kind.H 2 V = signedVolume Kind.H 2 V ∧
+    (∀ k d, (d = 1 ∨ d = 2 ∨ d = 3) → worldDim V = d →
+      (∀ xw ∈ volRule k d, 0 ≤ det d (jacMat k d V xw.1)) → volQuad k d V = volQuadSigned k d V) :=
+  ⟨by rw [quad_exact_S2, integral_detJ_S2], by rw [quad_exact_S3, integral_detJ_S3],
+   by rw [quad_exact_H1, integral_detJ_H1], by rw [quad_exact_H2, integral_detJ_H2],
+   fun k d hd hV hpos => volQuad_eq_signed k d hd V hV hpos⟩
+
+/-- Model of `InverseMapping::unmap_point_by_newton` (any cell, affine or multilinear): **if the iteration reports
+    convergence, the returned reference point is a preimage of the requested point up to the Newton tolerance**.
+    `_partial`: convergence itself is proved for affine cells only (`C15.unmap_map_affine`); the model uses the
+    rational tolerance `2^-47` and exact arithmetic, FEAT `eps^0.9` in floating point (compared after rounding). -/
+theorem C15.unmap_converged_is_preimage_partial (k : Kind) (d : Nat) (V : List (List Rat)) (p r : List Rat)
+    (h : unmapNewton k d V p = (true, r)) : defectSq k d V p r < newtonTolSq :=
+  newtonLoop_sound k d V p 10 _ r h
+
+/-- **`unmap(map(x)) = x` on affine cells**: for every non-degenerate triangle (either orientation) the model of the
+    inverse mapping applied to `T(s, t)` converges and returns exactly `(s, t)` (one exact Newton step) – unless
+    `T(s, t)` is within the tolerance of the image of the cell centre, where the iteration stops immediately. -/
+theorem C15.unmap_map_affine (V : List (List Rat)) (hV : worldDim V = 2) (s t : Rat)
+    (hdet : det 2 (jacMat Kind.S 2 V []) ≠ 0) :
+    ∃ r, unmapNewton Kind.S 2 V (mapPoint Kind.S 2 V [s, t]) = (true, r) ∧
+      (r = [s, t] ∨ (r = refCentre Kind.S 2 ∧
+        defectSq Kind.S 2 V (mapPoint Kind.S 2 V [s, t]) (refCentre Kind.S 2) < newtonTolSq)) :=
+  unmap_map_S2 V hV s t hdet
+
+/-! ## H¹-conformity on arbitrary 2-D meshes; duality on all 1-D / 2-D cells -/
+
+/-- **H¹-conformity of Lagrange-1 and Lagrange-2 on every 2-D mesh** (triangles, quadrilaterals): for an arbitrary
+    mesh `M` (any vertex coordinates, any local numbering of the two cells, any orientation of the edge; `SeesEdge`
+    is the consistency of the index sets: local edge `l` of cell `c` is edge `e`, stored in the order `π`) and any
+    global coefficient vector `u`, the finite element function evaluated by the model of the evaluator + DOF mapping
+    (`feEval`, op `interp`) from the two cells at the edge point with intrinsic coordinate `s` has one value.  The
+    proof shows that the one-sided trace only depends on the edge's own DOFs (`edgeCoef`: one global index per shared
+    functional, `dof_one_index`) and the edge's coordinate `s`. -/
+theorem C15.h1_conformity_lagrange12_2d (key : Fam × Kind) (hkey : key ∈ conformKeys) (M : Mesh) (hk : M.kind = key.2)
+    (hdim : M.dim = 2) (u : List Rat) (e c1 l1 c2 l2 : Nat) (π1 π2 : List Nat)
+    (h1 : SeesEdge key.2 M c1 l1 π1 e) (h2 : SeesEdge key.2 M c2 l2 π2 e) (s : List Rat) :
+    (feEval key.1 M u c1 (embedPt' key.2 2 1 (storedRow key.2 2 1 l1 π1) s)).map (fun r => r.2.1)
+      = (feEval key.1 M u c2 (embedPt' key.2 2 1 (storedRow key.2 2 1 l2 π2) s)).map (fun r => r.2.1) :=
+  conformity_mesh_2d key hkey M hk hdim u e c1 l1 c2 l2 π1 π2 h1 h2 s
+
+/-- … and the two reference points used above are mapped by the two cells' transformations to the same physical
+    point `T_e(s)` of the edge – for affine and bilinear cells alike. -/
+theorem C15.edge_point_same_from_both_cells (k : Kind) (M : Mesh) (hk : M.kind = k) (hdim : M.dim = 2) (w : Nat)
+    (hU : ∀ v, (M.vertex v).length = w) (e c l : Nat) (π : List Nat) (h : SeesEdge k M c l π e)
+    (hle : (M.row 1 0 e).length = 2) (s : List Rat) :
+    mapPoint k 2 (M.entVerts 2 c) (embedPt' k 2 1 (storedRow k 2 1 l π) s) = mapPoint k 1 (M.entVerts 1 e) s :=
+  edge_point_mesh k M hk hdim w hU e c l π h hle s
+
+/-- **Duality on all 1-D and 2-D cells** (composition of `dual_on_reference_cell_partial` with the pull-back lemma
+    `dual_on_every_cell`): for every family in `dualKeys2 ++ dualKeys2b` – P1, P2, P3, P0, P1-disc, Crouzeix–Raviart,
+    P2-bubble on triangles; Q1, Q2, Q3, P0 on intervals / quadrilaterals – every orientation `o` of the cell's edges
+    and **arbitrary vertex coordinates `V`** (affine and bilinear cells, any ambient dimension): the node functionals
+    of the cell applied to the basis function `Φ_j = φ̂_j ∘ T⁻¹` give the `j`-th unit vector. -/
+theorem C15.dual_all_cells_1d2d (key : Key) (h : key ∈ dualKeys2 ++ dualKeys2b) (o : List Nat)
+    (ho : o ∈ allOrients (numFaces key.2.1 key.2.2 1 * (if key.2.2 ≥ 2 then 1 else 0))) (tab : BasisTab)
+    (ht : tabOf key.1 key.2.1 key.2.2 = some tab) (V : List (List Rat)) (w : Nat)
+    (hV : uniformV V (numVerts key.2.1 key.2.2) w) (j : Nat) (hj : j < tab.nloc) (Φ : Poly)
+    (hΦ : ∀ x, evalAt (mapPoint key.2.1 key.2.2 V x) Φ
+      = evalAt x (tab.val ((slotPerm key.1 (refMesh key.2.1 key.2.2 o) 0).getD j j))) :
+    interpolate key.1 (cellMesh key.2.1 key.2.2 o V) Φ
+      = (List.range (numDofs key.1 (refMesh key.2.1 key.2.2 o))).map fun g =>
+          if g = (localDofs key.1 (refMesh key.2.1 key.2.2 o) 0).getD j 0 then 1 else 0 := by
+  have hcase : ∀ key ∈ dualKeys2 ++ dualKeys2b, key.2.2 = 2 ∨ (key.2.1 = Kind.H ∧ key.2.2 = 1) := by decide
+  have hd := C15.dual_on_reference_cell_partial key h o ho
+  obtain ⟨f, k, dim⟩ := key
+  simp only at ho ht hV hΦ hd ⊢
+  have hc : geomConfig k dim o := by
+    rcases hcase _ h with h2 | ⟨hk, h1⟩
+    · simp only at h2
+      subst h2
+      exact Or.inl ⟨rfl, by simpa using ho⟩
+    · simp only at hk h1
+      subst hk; subst h1
+      refine Or.inr (Or.inl ⟨rfl, rfl, ?_⟩)
+      simpa [allOrients] using ho
+  exact C15.dual_on_every_cell f k dim o tab hc ht hd V w hV j hj Φ hΦ
 
 /-! Non-vacuity of the hypotheses used above. -/
 example : ((Fam.L3, Kind.H, 2) : Key) ∈ checkedKeys := by decide
